@@ -20,6 +20,15 @@ them cross-class references and element ids that are `None`: `min(audioProgramme
 `RecursionError` (graph walks use fuel = number of elements; the loop validations run first) and `str()` of the
 raised exception.  Structural hypotheses (always true of parsed documents, like dangling references being
 impossible): `wellScoped` and `avsOwned` (an alternativeValueSet element is the child of one audioObject).
+Two further limits of what `_partial` covers, by construction of the model rather than by proof: (1) the pack
+allocator inside `selectItems` is C07's `PackAlloc.selectPackMapping`, a PURE three-valued `Outcome`
+(accepted / conflicting / ambiguous) — it has no error value, so "the allocator raises nothing internal" is not a
+theorem here but a modelling decision (the real `_allocate_packs_impl*` index `tracks[0]` / `possible[0]` only under
+syntactic guards `if tracks` / `len(possible) == 1`; tied by C07's and this check's correspondence); (2) the graph
+walks (`pathsFrom`, the multitree DFS, matrix input channels) use fuel = number of elements (+1/+2) and on fuel
+exhaustion return what they have as `.ok` — that the fuel suffices on documents that passed the loop validations is
+not proved here (C06 `acyclic_of_validate` derives acyclicity of the object graph from the loop validator; the
+equality with Python's unbounded recursion stays a correspondence matter).
 
 `resolved_iff_unique_valid` states the second sentence of the property with C07's `accept_iff_unique`, now without
 the "no allocation pack without channels" hypothesis: `_allocate_packs_impl` never allocates such a pack
@@ -28,6 +37,7 @@ the "no allocation pack without channels" hypothesis: `_allocate_packs_impl` nev
 for an audioObject that references such a pack: the Conflicting ADM error.
 -/
 import Earverif.Proofs.C14Alloc
+import Earverif.Gen.C14_Sites
 namespace Earverif.Validate
 open Earverif.AdmV
 
@@ -566,5 +576,35 @@ theorem shared_avs_defeats_validation :
       objects := [{ packs := [0], tracks := [some 0], pgain := true, avs := [7] },
                   { packs := [0], tracks := [some 0], pgain := true, avs := [7, 8] }] } none [])
       = .internal .assert := by decide
+
+/-! ### the raise-site table against the sources
+
+`AdmKind.all` / `AdmKind.site` (Model/Validate.lean) are kept by hand.  `Gen/C14_Sites.lean` is regenerated on every
+run from the `raise` statements that `ast` finds in the item-selection modules of /repo (harness/c14.py `extract`,
+c14_docs.code_sites, minus the three statements of c14_docs.SITES_NOT_MODELLED, listed there with reasons), so the
+kernel re-checks below that the model knows exactly the raise statements of the code: a new, removed, moved or
+renumbered `raise` breaks `sites_match`.  (63 kinds, 62 sites: `.conflicting` and `.ambiguous` share the single
+`raise` of `_PackAllocator.raise_error`.)  What this does NOT say: that each statement raises an ADM error class (the
+class names are in `Gen.C14.classes`; the harness checks the `Adm` prefix) nor that the kind's `Msg` matches the
+message (checked per case by the correspondence). -/
+
+/-- the model's raise-site table: the site of every `AdmKind` -/
+def modelSites : List (String × Nat) := AdmKind.all.map AdmKind.site
+
+/-- the hand-kept table names 62 distinct raise statements -/
+theorem sites_nodup_count : (AdmKind.all.map AdmKind.site).eraseDups.length = 62 := by decide
+
+/-- the generated table has no repetition (and 62 entries in this tree) -/
+theorem sites_gen_nodup : Gen.C14.sites.Nodup ∧ Gen.C14.sites.length = 62 := by decide +kernel
+
+/-- the raise statements found in the sources are exactly the sites of the model's kinds (as sets; with
+`sites_gen_nodup` and `sites_nodup_count`: the same sorted list) -/
+theorem sites_match : ∀ s, s ∈ Gen.C14.sites ↔ s ∈ modelSites := by
+  have h1 : Gen.C14.sites.all (fun s => modelSites.contains s) = true := by decide +kernel
+  have h2 : modelSites.all (fun s => Gen.C14.sites.contains s) = true := by decide +kernel
+  intro s
+  constructor
+  · intro h; have := List.all_eq_true.mp h1 s h; simpa using this
+  · intro h; have := List.all_eq_true.mp h2 s h; simpa using this
 
 end Earverif.Validate
